@@ -33,7 +33,7 @@ SPEC = {'id': 'C14',
              'today; true: kept). Not modelled: protocolName/protocolType pass-through, OffsetFetch/DescribeGroups/ListGroups/DeleteGroups, store errors, the '
              "ticker's real-time jitter.",
  'search_n': 1500,
- 'theorems': ['C14_join_success_all_joined', 'C14_leader_is_member', 'C14_members_only_to_leader', 'C14_sync_after_leader_sync', 'C14_nonvacuous'],
+ 'theorems': ['C14_join_success_all_joined', 'C14_leader_is_member', 'C14_members_only_to_leader', 'C14_sync_after_leader_sync', 'C14_sync_whole_generation', 'C14_nonvacuous'],
  'level_text': 'Machine-checked Coq theorems over all histories: a join answered NONE implies every current member has joinGeneration = generation; the leader '
                'named in every join reply (and the joiner) is a current member; a non-empty member list implies NONE and member = leader; in '
                "CompletingRebalance the leader's sync succeeds and makes the group Stable, in Stable every current member's sync of that generation succeeds "
